@@ -66,7 +66,7 @@ type hWorld struct {
 	headersOK, kidAlgOK, jwxOK bool
 	algSupported              bool
 	// key id of the proof / JWT header relative to the expected signer:
-	// 0 = signer#k1, 1 = another DID#k1, 2 = empty, 3 = the signer DID without fragment
+	// 0 = signer#k1, 1 = another DID#k1, 2 = empty, 3 = the signer DID without fragment, 4 = not a DID URL
 	vmKind int
 	// JSON-LD proof validity window
 	proofCreated    hInstant
@@ -130,7 +130,7 @@ func hNewWorld() *hWorld {
 	vTag("algSupported")
 	w.algSupported = vBool()
 	vTag("vmKind")
-	w.vmKind = vRange(0, 3)
+	w.vmKind = vRange(0, 4)
 	w.proofCreated = hSymSecond("proof.created")
 	vTag("proof.hasExpires")
 	w.proofHasExpires = vBool()
@@ -272,8 +272,10 @@ func (w *hWorld) keyIDFor(kind int) string {
 		return "did:web:mallory#k1"
 	case 2:
 		return ""
+	case 3:
+		return w.signer
 	}
-	return w.signer
+	return "junk"
 }
 
 func (w *hWorld) materialiseProof() proof.LDProof {
@@ -423,6 +425,9 @@ func hSubjectDID(c vc.VerifiableCredential) (*did.DID, error) {
 	if len(c.CredentialSubject) < 1 {
 		return nil, errors.New("unable to get subject DID from VC: there must be at least 1 credentialSubject")
 	}
+	if slot, isSlot := c.CredentialSubject[0].(hSubjectSlot); isSlot {
+		return hW.subjectOf(slot.i)
+	}
 	ids := make([]did.DID, 0, len(c.CredentialSubject))
 	for _, s := range c.CredentialSubject {
 		m, ok := s.(map[string]interface{})
@@ -486,6 +491,7 @@ var hTypePool = []string{"VerifiableCredential", "ExampleCredential", "OtherCred
 //	                 revocation; every proof format / retained source / number of proofs / key id / proof window.
 func hVerifyScenario(id string, scope int) {
 	w := hNewWorld()
+	vAssume(w.vmKind <= 3)
 
 	// --- the credential, field by field
 	var c vc.VerifiableCredential
